@@ -210,7 +210,10 @@ static std::string run(const Case& k, vf::Ctx& ctx) {
                 cell_tester::pos(nd) = ct::to_vec3(q);
             }
         }
-        C.update_all_face_normals_and_areas();
+        // a pass that follows another one directly (the divider refines the daughters and the solver refines them again in the same iteration,
+        // before any force computation) sees the caches exactly as the previous pass left them
+        if (ps.field != 0 || pass_no == 1) C.update_all_face_normals_and_areas();
+        else ctx.count("pass_directly_after_a_pass_without_cache_refresh");
         // ---- snapshot (shadow model)
         Shadow sh;
         {
